@@ -221,8 +221,27 @@ def bad_frame(rng, p):
     if kind == 10:                                  # restart inside
         cut = rng.randrange(8, len(body) + 1)
         return bytes(body[:cut]) + bytes([0x1b] * 4 + [1] * 4)
-    # kind 11: invalid escape payload
-    return bytes(body) + bytes([0x1b] * 4) + bytes([rng.choice([2, 0x1a, 0x55]), rng.getrandbits(8), rng.getrandbits(8), rng.getrandbits(8)])
+    # kind 11: invalid escape payload (often ending in 0x1b / 0x01: what a start-sequence matcher must not remember)
+    return bytes(body) + bytes([0x1b] * 4) + bytes([rng.choice([2, 0x1a, 0x55, 0x1c, 0x00])] +
+                                                   [rng.choice([0x1b, 0x1b, 0x01, rng.getrandbits(8)]) for _ in range(3)])
+
+
+def false_start(rng, p):
+    """a valid frame whose start sequence is damaged: too few 0x1b, a 0x1b or another byte interrupting the 01 part,
+    leading bytes missing - followed by the untouched rest of the frame (checksum of the undamaged frame)"""
+    k = rng.randrange(5)
+    if k == 0:
+        pre = bytes([0x1b] * 4 + [1] * rng.randint(1, 3) + [0x1b] + [1] * 4)
+    elif k == 1:
+        pre = bytes([0x1b] * rng.randint(1, 3) + [1] * 4)
+    elif k == 2:
+        j = rng.randint(1, 3)
+        pre = bytes([0x1b] * 4 + [1] * j + [rng.choice([0x00, 0x1a, 0x55, 0x1b])] + [1] * (4 - j))
+    elif k == 3:
+        pre = START[rng.randint(1, 7):]
+    else:
+        pre = bytes([0x1b] * rng.randint(5, 9) + [1] * rng.randint(1, 3) + [0x1b] * rng.randint(1, 4) + [1] * 4)
+    return pre + frame(p)[8:]
 
 
 def stream(rng, maxpay=40, nseg=None):
@@ -236,11 +255,15 @@ def stream(rng, maxpay=40, nseg=None):
             p = payload(rng, rng.randint(0, maxpay))
             out += frame(p)
             desc.append("frame%d" % len(p))
-        elif r < 0.75:
+        elif r < 0.70:
             p = payload(rng, rng.randint(0, maxpay))
             b = bad_frame(rng, p)
             out += b
             desc.append("bad")
+        elif r < 0.78:
+            p = payload(rng, rng.randint(0, maxpay))
+            out += false_start(rng, p)
+            desc.append("falsestart")
         else:
             g = noise(rng)
             out += g
